@@ -88,8 +88,9 @@ def gen_alt(rng, al, kind, regs, de, gz, oid, consts):
     if kind == 'enumeration':
         keys = rng.sample(KEYS, rng.randint(1, 3))
         ay, am = mk_arg(rng, de)
-        ad = {k: rng.randint(0, 200) for k in keys}
-        cd = {k: al.next_code() for k in keys}
+        # 0 is a value like any other (a key that maps to 0 is still a key of the enumeration)
+        ad = {k: rng.choice([0, 0, rng.randint(0, 200)]) for k in keys}
+        cd = {k: rng.choice([0, al.next_code(), al.next_code()]) for k in keys}
         pos = cy.get('position', 'suffix')
         yb = {'size': 4, 'value_dict': cd}
         if pos == 'prefix':
